@@ -125,6 +125,17 @@ match point:
 def params(a, b=1, *rest, c, d=2, **kw): return [a, b], {c: d, **kw}, (rest, kw)
 del first, second[0], third.attr
 import alpha, beta.gamma as bg, delta
+pair = ('s', b,)
+trio = [a, 't', c,]
+uniq = {a, b, 'u',}
+solo = (a,)
+res2 = call(a, 'v', c,)
+idx = grid[i, 'w', k]
+with open(a) as f, lock as g, h: pass
+from pkg import name1, name2 as n2, name3
+def scope():
+    global gone, gtwo, gthree
+    return not a or 'x' and c or d, [v for v in a if b if 'y' if c]
 ''')
 
 # e6: keyword-adjacent headers and identifiers that begin with keywords (also as the first token of block statements)
@@ -196,4 +207,51 @@ def pick(seq):
 def gen(seq):
     return (m + n for m in seq.a or seq.b if m not in seq.c)
 q = a + b if c + d else e + f
+''')
+
+# e8: comments in every gap of multi-line operand chains, parameter lists and optional blocks
+EXTRA.append('''\
+flag = (aaa and  # c1
+        bbb and
+        ccc)  # end
+wide_flag = (aaa or  # a longer comment after the operator
+             bbb or  # c2
+             ccc or
+             ddd)
+chain = (first <  # c3
+         second <=
+         third)
+tight_chain = (p ==  # c4
+  q != r)
+def f(  # open
+    a,  # pa
+    b=1,  # pb
+): pass
+def g(  # gopen
+        x, y): return x
+if y:
+    z = 1
+else:
+    # under else
+    z = 2
+while y:
+    z = 3
+else:  # on else
+    # under else 2
+    z = 4
+    w = 5
+try:
+    t()
+except E:
+    pass
+# above finally
+finally:
+    # under finally
+    u()
+for i in j:
+    pass
+# above else
+else:
+    # under else 3
+    v()
 ''')
